@@ -454,6 +454,136 @@ def c03(prop, tier, seed):
 PLANS["C03"] = c03
 
 
+def c12(prop, tier, seed):
+    import multiprocessing
+    from oracles import c12 as grid, c02 as dec
+    t0 = time.time()
+    wd = workdir(prop, tier)
+    res = Result()
+    try:
+        b = build("checked")
+        # ---- reader direction: independent encoder -> crate reader
+        lst, infos = grid.produce(os.path.join(wd, "grid"), seed, tier)
+        r, obs = run_dump(b, lst, wd, "dump", seed, tier, prop)
+        res.merge(r)
+        by_file = {i["file"]: i for i in infos}
+        jobs = [(seed, by_file[f], o) for f, o in obs.items() if f in by_file]
+        wp = set()
+        cutpos = set()
+        values = 0
+        for i in infos:
+            for ph in i["phases"]:
+                wp.add(i["width"] * 8 + ph)
+            cutpos.update(i["cut_positions"])
+            values += i["values"]
+        with multiprocessing.Pool(NCPU) as pool:
+            for path, problems in pool.imap_unordered(grid.compare_one, jobs, chunksize=8):
+                info = by_file[path]
+                for rule, text in problems:
+                    if rule == "ORACLE-ERROR":
+                        raise Infra("C12 oracle crashed: " + text)
+                    sig = f"{prop}/reader/{rule}"
+                    res.sigcounts[sig] = res.sigcounts.get(sig, 0) + 1
+                    if sum(1 for v in res.viols if v["sig"] == sig) < 3:
+                        res.viols.append({"prop": prop, "sig": sig, "detail": f"grid cell {info['cell']} (stream of {info['stream_len']} bytes, {info['cuts']} packetisations): {text}", "workload": "dump", "seed": seed, "case": info["idx"], "args": None})
+        res.stats["reader_cells"] = len(jobs)
+        res.stats["reader_values_compared"] = values
+        # ---- writer direction: crate writer -> independent bit-level decoder
+        files_dir = os.path.join(wd, "wfiles")
+        os.makedirs(files_dir)
+        ncases = 325 * (8 if tier == "quick" else 64)
+        rw = run_shards(b, "roundtrip", ["--mode", "c12w", "--filesdir", files_dir], ncases, 300, seed, tier, wd, "c12w", prop)
+        res.merge(rw)
+        pairs = [(f, f[:-4] + ".intent.json") for f in sorted(glob.glob(os.path.join(files_dir, "*.e57")))]
+        wpoints = 0
+        with multiprocessing.Pool(NCPU) as pool:
+            for path, (problems, st) in pool.imap_unordered(dec.worker, pairs, chunksize=16):
+                wpoints += st.get("points", 0)
+                case = int(os.path.basename(path)[5:13])
+                for rule, text in problems:
+                    if rule == "ORACLE-ERROR":
+                        raise Infra("C12 writer-direction oracle crashed: " + text)
+                    if rule not in ("R7", "R7w", "R6"):
+                        continue  # other rules belong to C02
+                    sig = f"{prop}/writer/{rule}/{textclass(text, 50)}"
+                    res.sigcounts[sig] = res.sigcounts.get(sig, 0) + 1
+                    if sum(1 for v in res.viols if v["sig"] == sig) < 3:
+                        res.viols.append({"prop": prop, "sig": sig, "detail": f"file of case {case} (width {case % 65}, value set {(case // 65) % 5}): {text}", "workload": "roundtrip", "seed": seed, "case": case, "args": [b, "roundtrip", "--mode", "c12w", "--seed", str(seed), "--tier", tier]})
+        res.stats["writer_files_decoded"] = len(pairs)
+        res.stats["writer_points_decoded"] = wpoints
+        res.samples = [{"direction": "reader", "cell": i["cell"], "stream_bytes": i["stream_len"], "packetisations": i["cuts"], "bit_phases": i["phases"]} for i in infos[100:103]]
+        wp_w = res.nums.get("width_phase", set())
+    finally:
+        cleanup(wd)
+    rule = ("grid = widths 0..64 x range shapes {2^w-1, 2^(w-1), 2^(w-1)+1} x minimum {0, -range/2, i64::MIN, i64::MAX-range, random} x value sets {all-min, all-max, alternating, walking one, random} (quick: one shape and two minima per width). Reader direction: the independent encoder writes each cell with the target stream cut at EVERY byte position (<=40) into two packets and at sampled pairs into three, beside a float stream and a second bit-packed stream; the crate's raw reader must return the encoded values. "
+            "Writer direction: the crate writes point clouds with a record of the focused width and the value set; the independent decoder requires stream length = ceil(N*w/8) (floats 4/8 bytes) and value-min in w bits LSB-first contiguous across bytes and packets; non-trivial = grid cell executed; distinct = distinct cells (reader) + distinct (width, value set) cells (writer)")
+    distinct = res.stats.get("reader_cells", 0) + len(res.nums.get("grid_cell", ()))
+    extra = {"reader_cells": res.stats.get("reader_cells", 0), "reader_width_phase_pairs": len(wp), "reader_cut_positions": len(cutpos), "reader_values_compared": res.stats.get("reader_values_compared", 0),
+             "writer_files_decoded": res.stats.get("writer_files_decoded", 0), "writer_points_decoded": res.stats.get("writer_points_decoded", 0), "writer_width_phase_pairs": len(wp_w), "writer_cells": len(res.nums.get("grid_cell", ())),
+             "exhaustive": tier == "thorough", "exhaustive_part": "the stated grid x every byte cut position of the short stream"}
+    assumptions = ["impossible (width, phase) pairs (e.g. even widths never start at odd bit phases) are not counted as missing", "the codec used as oracle (e57ref.bits) is big-integer based and shares nothing with the crate's byte-wise implementation"]
+    return finish(prop, tier, seed, level(prop), res, rule, distinct, res.stats.get("reader_cells", 0) + res.stats.get("writer_files_decoded", 0), assumptions, t0, extra)
+
+
+PLANS["C12"] = c12
+
+
+def c18(prop, tier, seed):
+    import multiprocessing, re
+    from oracles import c18 as orc
+    t0 = time.time()
+    wd = workdir(prop, tier)
+    res = Result()
+    cover = {}
+    try:
+        b = build("checked")
+        # (a) foreign-namespace insertions (independent encoder) -> reader dumps of baseline and variant must agree
+        n = 1200 if tier == "quick" else 40000
+        lst, metas = orc.produce(os.path.join(wd, "pairs"), seed, n)
+        r, obs = run_dump(b, lst, wd, "dump", seed, tier, prop)
+        res.merge(r)
+        compared = 0
+        for m in metas:
+            if m["base"] not in obs or m["var"] not in obs:
+                res.inconclusive.append({"why": "pair without observation logs", "i": m["i"]})
+                continue
+            a, v = orc.strip(obs[m["base"]]), orc.strip(obs[m["var"]])
+            for ins in m["insertions"]:
+                key = "site:%s|%s|%s" % (ins["site"], ins["name_class"], ins["kind"])
+                cover[key] = cover.get(key, 0) + 1
+            if a.get("open") != "ok":
+                res.inconclusive.append({"why": "baseline file of a pair does not open", "i": m["i"], "err": str(a)[:200]})
+                continue
+            compared += 1
+            if v.get("open") != "ok":
+                sig = f"{prop}/variant-unreadable/" + textclass(str(v.get("open")), 60)
+                d = ("variant", "opens", str(v.get("open"))[:300])
+            else:
+                d = orc.diff(a, v)
+                sig = f"{prop}/standard-content-changed" + re.sub(r"\d+", "#", d[0]) if d else None
+            if d:
+                res.sigcounts[sig] = res.sigcounts.get(sig, 0) + 1
+                if sum(1 for x in res.viols if x["sig"] == sig) < 3:
+                    res.viols.append({"prop": prop, "sig": sig, "detail": f"pair #{m['i']}: insertions {m['insertions']}: {d[0]}: without insertions {str(d[1])[:160]!r}, with insertions {str(d[2])[:160]!r}", "workload": "dump", "seed": seed, "case": m["i"], "args": None})
+        res.stats["pairs_compared"] = compared
+        res.cover.update(cover)
+        res.samples = [{"pair": m["i"], "insertions": m["insertions"]} for m in metas[:3]]
+        # (b) extension attributes inside prototypes through the crate's own writer
+        cases, secs = (20000, 40) if tier == "quick" else (600000, 300)
+        res.merge(run_shards(b, "roundtrip", ["--mode", "c18"], cases, secs, seed, tier, wd, "extattr", prop))
+    finally:
+        cleanup(wd)
+    rule = ("(a) scenes encoded twice with the same layout by the independent encoder: once plain, once with 1-5 elements of a foreign namespace inserted at 14 kinds of sites outside prototypes (before/after/between standard siblings at root, data3D, point cloud and image level), with local names equal to standard names (52 names) or random, as leaves of every type, vectors, structures and structures mimicking whole standard subtrees, plus foreign attributes on the root; the reader's dumps (minus XML text, header lengths, extension list) must be identical; "
+            "(b) writer programs whose prototypes carry extension attributes over all accepted names and namespaces, half of them named like standard attributes; prototype, values and all standard descriptors must read back unchanged; non-trivial = pair compared / program read back; distinct = distinct (site, name class, element kind) cells + pairs")
+    distinct = len([k for k in cover if k.startswith("site:")]) + res.stats.get("pairs_compared", 0)
+    extra = {"pairs_compared": res.stats.get("pairs_compared", 0), "insertion_cells": len([k for k in cover if k.startswith("site:")]), "ext_attr_programs": res.stats.get("programs", 0), "ext_attrs_with_standard_names": res.cover.get("ext-attr:standard-name", 0), "ext_attrs_other": res.cover.get("ext-attr:other-name", 0)}
+    assumptions = ["insertions are well-formed and carry a type attribute like every E57 element", "two prefixes bound to one namespace URI are not generated (same XML namespace)", "the extension list and the XML text legitimately change with an insertion and are excluded"]
+    return finish(prop, tier, seed, level(prop), res, rule, distinct, res.stats.get("pairs_compared", 0) + res.stats.get("programs", 0), assumptions, t0, extra)
+
+
+PLANS["C18"] = c18
+
+
 def run(prop, tier, seed):
     if prop not in PLANS:
         log(f"no check registered for {prop}")
